@@ -29,6 +29,38 @@ theorem uriLoop_uesc {c : Char} {bs : List UInt8} (hu : UEsc c bs) {s : Scan} {d
       simp only [h.cur, h.eof, e0, a0.readQ, e]
       simp
 
+/-- `\[ \] \@ \& \= \;`: the byte after the backslash -/
+theorem uriLoop_punct {s : Scan} {c d : UInt8} {r : List UInt8} (h : At s (92 :: c :: d :: r)) (hs : s.stash = [])
+    (hc : c = 91 ∨ c = 93 ∨ c = 64 ∨ c = 38 ∨ c = 61 ∨ c = 59) :
+    ∃ s', At s' (d :: r) ∧ s'.stash = [] ∧ s.pos ≤ s'.pos ∧
+      ∀ (fuel : Nat) (acc : List UInt8), uriLoop (fuel + 1) s acc = uriLoop fuel s' (acc ++ [c]) := by
+  obtain ⟨s1, e1, h1, hs1, _, hp1⟩ := h.peek0' hs
+  have h2 := h1.advance
+  refine ⟨s1.advance.advance, h2.advance, ?_, ?_, ?_⟩
+  · have : s1.advance.stash = [] := advance_stash_nil (by omega)
+    rw [At.advance_stash, this]; rfl
+  · rw [← hp1]; exact Nat.le_trans (At.advance_pos_le _) (At.advance_pos_le _)
+  · intro fuel acc
+    rw [uriLoop]
+    simp only [h.cur, h.eof, e1, h1.readQ]
+    rcases hc with rfl | rfl | rfl | rfl | rfl | rfl <;> simp
+
+/-- `\: \/ \? \#`: both bytes are kept -/
+theorem uriLoop_keep {s : Scan} {c d : UInt8} {r : List UInt8} (h : At s (92 :: c :: d :: r)) (hs : s.stash = [])
+    (hc : c = 58 ∨ c = 47 ∨ c = 63 ∨ c = 35) :
+    ∃ s', At s' (d :: r) ∧ s'.stash = [] ∧ s.pos ≤ s'.pos ∧
+      ∀ (fuel : Nat) (acc : List UInt8), uriLoop (fuel + 1) s acc = uriLoop fuel s' (acc ++ [92, c]) := by
+  obtain ⟨s1, e1, h1, hs1, _, hp1⟩ := h.peek0' hs
+  have h2 := h1.advance
+  refine ⟨s1.advance.advance, h2.advance, ?_, ?_, ?_⟩
+  · have : s1.advance.stash = [] := advance_stash_nil (by omega)
+    rw [At.advance_stash, this]; rfl
+  · rw [← hp1]; exact Nat.le_trans (At.advance_pos_le _) (At.advance_pos_le _)
+  · intro fuel acc
+    rw [uriLoop]
+    simp only [h.cur, h.eof, e1, h1.readQ]
+    rcases hc with rfl | rfl | rfl | rfl <;> simp
+
 theorem uriLoop_ch (c : Char) (bs : List UInt8) (hc : UriCh c bs) (s : Scan) (d : UInt8) (r : List UInt8)
     (acc : List UInt8) (h : At s (bs ++ d :: r)) (hs : s.stash = []) :
     ∃ k s', 1 ≤ k ∧ k ≤ bs.length ∧ At s' (d :: r) ∧ s.pos ≤ s'.pos ∧ s'.stash = [] ∧
@@ -51,6 +83,14 @@ theorem uriLoop_ch (c : Char) (bs : List UInt8) (hc : UriCh c bs) (s : Scan) (d 
     obtain ⟨s', h', hs', hp', e'⟩ := uriLoop_esc h hs (Or.inr rfl)
     refine ⟨1, s', by simp, by simp, h', hp', hs', fun fuel => ?_⟩
     rw [e']; rfl
+  | punct _ b hm =>
+    simp only [List.mem_cons, Prod.mk.injEq, List.mem_nil_iff, or_false] at hm
+    have hcb : (b = 91 ∨ b = 93 ∨ b = 64 ∨ b = 38 ∨ b = 61 ∨ b = 59) ∧ encChar c = [b] := by
+      rcases hm with ⟨rfl, rfl⟩ | ⟨rfl, rfl⟩ | ⟨rfl, rfl⟩ | ⟨rfl, rfl⟩ | ⟨rfl, rfl⟩ | ⟨rfl, rfl⟩ <;>
+        exact ⟨by simp, by decide⟩
+    obtain ⟨s', h', hs', hp', e'⟩ := uriLoop_punct h hs hcb.1
+    refine ⟨1, s', by simp, by simp, h', hp', hs', fun fuel => ?_⟩
+    rw [e', hcb.2]
   | u _ _ hu =>
     have hl := uesc_length hu
     obtain ⟨s', h', hs', hp', e'⟩ := uriLoop_uesc hu h hs
@@ -81,6 +121,23 @@ theorem uriLoop_bodyS (cs : List Char) (body : List UInt8) (hb : UriBody cs body
     obtain ⟨s2, e2, h2, hp2, hs2⟩ := ih s1 r f (acc ++ encChar c) h1 hs1 (by omega)
     refine ⟨s2, ?_, h2, Nat.le_trans hp1 hp2, hs2⟩
     rw [e, e2, encChars_cons]; simp
+  | keep c b hm cs bs' _ ih =>
+    intro s r fuel acc h hs hf
+    simp only [List.cons_append, List.length_cons] at h hf
+    simp only [List.mem_cons, Prod.mk.injEq, List.mem_nil_iff, or_false] at hm
+    have hcb : (b = 58 ∨ b = 47 ∨ b = 63 ∨ b = 35) ∧ encChar '\\' ++ encChar c = [92, b] := by
+      rcases hm with ⟨rfl, rfl⟩ | ⟨rfl, rfl⟩ | ⟨rfl, rfl⟩ | ⟨rfl, rfl⟩ <;> exact ⟨by simp, by decide⟩
+    obtain ⟨d, r', hd⟩ : ∃ d r', bs' ++ 96 :: r = d :: r' := by
+      cases hx : bs' ++ 96 :: r with
+      | nil => simp at hx
+      | cons d r' => exact ⟨d, r', rfl⟩
+    rw [hd] at h
+    obtain ⟨s1, h1, hs1, hp1, e⟩ := uriLoop_keep h hs hcb.1
+    obtain ⟨f, rfl⟩ : ∃ f, fuel = f + 1 := ⟨fuel - 1, by omega⟩
+    rw [← hd] at h1
+    obtain ⟨s2, e2, h2, hp2, hs2⟩ := ih s1 r f (acc ++ [92, b]) h1 hs1 (by omega)
+    refine ⟨s2, ?_, h2, Nat.le_trans hp1 hp2, hs2⟩
+    rw [e, e2, encChars_cons, encChars_cons, ← hcb.2]; simp
 
 /-- `parseUri` reads every spelling of a Uri back -/
 theorem parseUri_sp (cs : List Char) (body : List UInt8) (hb : UriBody cs body) (s : Scan) (rest : List UInt8)
@@ -260,5 +317,20 @@ theorem uriBody_enc (s : List Char) : UriBody s (s.flatMap encUriChar) := by
   | cons c cs ih =>
     rw [List.flatMap_cons]
     exact UriBody.cons c cs _ _ (uriCh_enc c) ih
+
+/-- `` `a\:b\[c\u00e9` `` denotes the Uri `a\:b[cé` (seven characters: the `\:` escape is kept verbatim) -/
+theorem uriBody_example :
+    UriBody "a\\:b[cé".toList [97, 92, 58, 98, 92, 91, 99, 92, 117, 48, 48, 101, 57] :=
+  (by decide +kernel : "a\\:b[cé".toList = ['a', '\\', ':', 'b', '[', 'c', 'é']) ▸
+  (by decide +kernel : [97] ++ (92 :: 58 :: ([98] ++ ([92, 91] ++ ([99] ++ ([92, 117, 48, 48, 101, 57] ++ [])))))
+      = ([97, 92, 58, 98, 92, 91, 99, 92, 117, 48, 48, 101, 57] : List UInt8)) ▸
+  UriBody.cons 'a' _ _ _ ((by decide +kernel : encChar 'a' = [97]) ▸ UriCh.raw 'a' (by decide) (by decide) (by decide))
+    (UriBody.keep ':' 58 (by decide) _ _
+    (UriBody.cons 'b' _ _ _ ((by decide +kernel : encChar 'b' = [98]) ▸ UriCh.raw 'b' (by decide) (by decide) (by decide))
+    (UriBody.cons '[' _ _ _ (UriCh.punct '[' 91 (by decide))
+    (UriBody.cons 'c' _ _ _ ((by decide +kernel : encChar 'c' = [99]) ▸ UriCh.raw 'c' (by decide) (by decide) (by decide))
+    (UriBody.cons 'é' _ _ _ (UriCh.u 'é' _ (UEsc.mk 'é' 48 48 101 57 (by decide) ⟨by decide, Or.inl (by decide)⟩
+        ⟨by decide, Or.inl (by decide)⟩ ⟨by decide, Or.inl (by decide)⟩ ⟨by decide, Or.inl (by decide)⟩))
+    UriBody.nil)))))
 
 end Hs.Zinc
